@@ -197,6 +197,14 @@ def exec_op(w, op):
             for name, ts in op[7]:
                 kw[name] = [x for x in (w.fetch(t[0], t[1]) for t in ts) if x is not None]
             E(**kw); return ['ok', None]
+        if k == 'navsetref':
+            o = w.fetch(op[1], op[2])
+            if o is None: return ['absent']
+            t = getattr(o, op[3])                     # reached through a reference: possibly a seed (nothing but its key is loaded)
+            if t is None: return ['ok', 'no target']
+            x = None if op[5] is None else w.fetch(op[5], op[6])
+            if op[5] is not None and x is None: return ['absent']
+            setattr(t, op[4], x); return ['ok', None]
         if k == 'flush': flush(); return ['ok', None]
         if k == 'commit': commit(); return ['ok', None]
         if k == 'rollback': rollback(); return ['ok', None]
@@ -333,9 +341,15 @@ def gen_mod(rng, schema):
     e = rng.randrange(len(schema['ents']))
     pk = rng.choice(pks_of(schema, e))
     kinds = ['set', 'set', 'create', 'delete', 'flush', 'commit', 'rollback']
-    if refs[e]: kinds += ['setref', 'setref']
+    if refs[e]: kinds += ['setref', 'setref', 'navsetref']
     if colls[e]: kinds += ['add', 'add', 'remove']
     k = rng.choice(kinds)
+    if k == 'navsetref':
+        name, t, req = rng.choice(refs[e])
+        if not refs[t]: k = 'setref'
+        else:
+            n2, t2, req2 = rng.choice(refs[t])
+            return ['navsetref', e, pk, name, n2, t2, rng.choice(pks_of(schema, t2))]
     if k == 'set':
         name = rng.choice(['tag', 'v', 's'])
         return ['set', e, pk, name, {'tag': rng.choice([0, 1, 2, 3]), 'v': rng.choice([None, 5, 8]), 's': rng.choice([None, 'x', 'zz'])}[name]]
@@ -362,12 +376,16 @@ def gen_history(rng, schema, n):
     hist = []
     for _ in range(n):
         r = rng.random()
-        if r < 0.66: hist.append(gen_obs(rng, schema))
+        if r < 0.66:
+            hist.append(gen_obs(rng, schema))
+            if hist[-1][0] in ('contains', 'empty', 'count') and rng.random() < 0.5: hist.append(list(hist[-1]))     # the cached shortcut of the second call
         elif r < 0.92: hist.append(gen_mod(rng, schema))
         else: hist.append([rng.choice(['end', 'end', 'end_rollback'])])
     hist.append(['end'])
     tail = len(hist)
-    for _ in range(rng.choice([4, 8, 12])): hist.append(gen_obs(rng, schema))     # read-only tail (the model tie runs here)
+    for _ in range(rng.choice([4, 8, 12])):                                        # read-only tail (the model tie runs here)
+        hist.append(gen_obs(rng, schema))
+        if hist[-1][0] in ('contains', 'empty', 'count') and rng.random() < 0.5: hist.append(list(hist[-1]))
     hist.append(['end'])
     return hist, tail
 
@@ -471,8 +489,11 @@ class Tie(object):
             r = exec_op(w, op)
             if self.ok: self.coherent(w, op)
             return r
-        o = w.fetch(op[1], op[2])
-        x = w.fetch(op[4], op[5]) if k == 'contains' else None
+        try:
+            o = w.fetch(op[1], op[2])
+            x = w.fetch(op[4], op[5]) if k == 'contains' else None
+        except Exception:
+            return exec_op(w, op)
         if o is None or (k == 'contains' and x is None): return exec_op(w, op)
         cls = type(o); attr = getattr(cls, op[3])
         oid = self.oid(op[1], op[2]); ai = self.aidx(cls, attr)
@@ -537,7 +558,7 @@ class Tie(object):
 def run_all(ctx, schema, population, hist, tail, base, with_tie=True):
     logs = {}; sel = {}; ties = []
     for st in STRATEGIES:
-        if st == 'lazyref' and DEFECT['lazyref'] and any(r['kind'] == 'm2o' for r in schema['rels']):
+        if st == 'lazyref' and (DEFECT['lazyref'] or DEFECT['reassign']) and any(r['kind'] == 'm2o' for r in schema['rels']):
             # every one-to-many collection loads empty under this strategy (reported by the witness on every run): nothing below it can be compared
             ctx.count('lazyref-not-compared:lazy-reference-defect-present'); continue
         tie = None
@@ -593,6 +614,8 @@ def report(ctx, schema, population, hist, base, d):
     last = h[i] if 0 <= i < len(h) else ['?']
     if st0 == 'lazyref' and last[0] in ('coll', 'count', 'empty', 'len', 'contains', 'itercoll', 'itercount', 'collload') and 'm2o' in kinds + ['m2o' if any(r['kind'] == 'm2o' for r in schema['rels']) else '']:
         key, what = LAZYREF_KEY, LAZYREF_WHAT
+    elif DEFECT['reassign'] and any(o[0] in ('setref', 'navsetref') for o in h[:i + 1]) and any(r['kind'] == 'm2o' for r in schema['rels']) and (st0 == 'lazyref' or any(o[0] == 'navsetref' for o in h)):
+        key, what = REASSIGN_KEY, REASSIGN_WHAT
     elif DEFECT['count'] and any(o[0] in ('delete', 'remove', 'add', 'create') for o in h[:i + 1]) and any(r['kind'] in ('m2m', 'symm') for r in schema['rels']):
         key, what = COUNT_KEY, COUNT_WHAT      # every step of the minimal history is needed: a many-to-many change, a flush, a read of the other side
     ctx.violation(what,
@@ -600,7 +623,11 @@ def report(ctx, schema, population, hist, base, d):
                   observed={st0: lg[st0][i] if 0 <= i < len(lg[st0]) else None}, expected={'default': lg['default'][i] if 0 <= i < len(lg['default']) else None}, key=key)
 
 
-DEFECT = {'lazyref': False, 'count': False}
+DEFECT = {'lazyref': False, 'count': False, 'reassign': False}
+REASSIGN_KEY = 'unloaded-reference-reassign:old-owner-collection-stale'
+REASSIGN_WHAT = ('assigning a many-to-one reference whose current value is NOT LOADED (the object is a seed known by its primary key only, or the attribute is lazy) does not load the old '
+                 'value (Attribute.__set__ loads it only when the reverse is not a collection), so the previous owner\'s collection is not updated: its cached count() / is_empty() / '
+                 'fully loaded items still include the object, although the same program with the reference loaded sees it removed')
 
 def witnesses(ctx):
     """the two defects confirmed while building the check, replayed on every run on fixed minimal programs"""
@@ -639,9 +666,39 @@ def witnesses(ctx):
                       observed={'count': cnt}, expected={'count': n}, key=COUNT_KEY)
 
 
+def witness_reassign(ctx):
+    db = Database()
+    class G(db.Entity):
+        ps = Set('P')
+    class P(db.Entity):
+        g = Optional(G)
+        q = Optional('Q')
+    class Q(db.Entity):
+        p = Required(P)
+    db.bind('sqlite', ':memory:'); db.generate_mapping(create_tables=True)
+    with db_session:
+        g1 = G(); g2 = G(); p = P(g=g1); q = Q(p=p)
+    out = {}
+    for loaded in (True, False):
+        with db_session:
+            g1 = G[1]; n0 = g1.ps.count()
+            p = Q[1].p                      # a seed: P[1] known by its primary key only
+            if loaded: p.load()
+            p.g = G[2]
+            out[loaded] = [n0, g1.ps.count(), g1.ps.is_empty()]
+            rollback()
+    db.disconnect()
+    ctx.case(['witness', 'reassign-unloaded-reference'], kind='witness:reassign-unloaded-reference')
+    DEFECT['reassign'] = out[True] != out[False]
+    if DEFECT['reassign']:
+        ctx.violation(REASSIGN_WHAT, {'program': "G: ps = Set('P'); P: g = Optional(G), q = Optional('Q'); Q: p = Required(P); g1.ps.count(); p = Q[1].p [; p.load()]; p.g = G[2]; g1.ps.count(), g1.ps.is_empty()"},
+                      observed={'reference not loaded': out[False]}, expected={'reference loaded first': out[True]}, key=REASSIGN_KEY)
+
+
 def run(ctx):
     rng = ctx.rng
     witnesses(ctx)
+    witness_reassign(ctx)
     work = ponyutil.workdir('c23')
     base = os.path.join(work, 'base.sqlite')
     try:
